@@ -233,7 +233,7 @@ func cacheFamily() []*Filt {
 	return []*Filt{
 		{Tag: FNull},
 		lab,
-		{Tag: FNSName, IDs: []ID2{{1, 1}}},
+		{Tag: FNSName, IDs: []ID2{{1, 2}}},
 		fn(not(lab)),
 	}
 }
@@ -248,7 +248,8 @@ func cacheObjects(rvs []string) []*Obj {
 				if l == 1 {
 					m = Map{{1, 1}}
 				}
-				r = append(r, &Obj{ID: id, Kind: KPod, NS: 1, NM: nm, RV: rv, Labels: m, Spec: SPod, Node: 1})
+				// the first key is cluster-scoped (empty namespace), the second namespaced
+				r = append(r, &Obj{ID: id, Kind: KPod, NS: nm - 1, NM: nm, RV: rv, Labels: m, Spec: SPod, Node: 1})
 				id++
 			}
 		}
@@ -411,7 +412,7 @@ func cacheWalks(c *Ctx) {
 	weird := []string{"", "x", "0", "-3", "+7", "0012", "9223372036854775807", "9223372036854775808", "1e3", " 5"}
 	id := 1
 	mkobj := func() *Obj {
-		o := &Obj{ID: id, Kind: KPod, NS: 1 + c.Rng.Intn(2), NM: 1 + c.Rng.Intn(4), Labels: labs[c.Rng.Intn(3)], Spec: SPod, Node: 1}
+		o := &Obj{ID: id, Kind: KPod, NS: c.Rng.Intn(3), NM: 1 + c.Rng.Intn(3), Labels: labs[c.Rng.Intn(3)], Spec: SPod, Node: 1}
 		id++
 		if c.Rng.Intn(8) == 0 {
 			o.RV = weird[c.Rng.Intn(len(weird))]
